@@ -45,11 +45,13 @@ def ST.size : ST → Nat
   | .blob n => n
 
 /-- `value.serialize()`; `none` when the value does not fit the type -/
+def pow256 (k : Nat) : Int := ((256 ^ k : Nat) : Int)
+
 def encS : ST → SV → Option Bytes
-  | .uint k, .num n => if 0 ≤ n ∧ n < (256 : Int) ^ k then some (toLE k n.toNat) else none
+  | .uint k, .num n => if 0 ≤ n ∧ n < pow256 k then some (toLE k n.toNat) else none
   | .sint k, .num n =>
-    if -((256 : Int) ^ k / 2) ≤ n ∧ n < (256 : Int) ^ k / 2 then
-      some (toLE k (if n < 0 then (n + (256 : Int) ^ k).toNat else n.toNat))
+    if -(pow256 k / 2) ≤ n ∧ n < pow256 k / 2 then
+      some (toLE k (if n < 0 then (n + pow256 k).toNat else n.toNat))
     else none
   | .blob m, .raw b => if b.length = m then some b else none
   | _, _ => none
@@ -58,10 +60,10 @@ def encS : ST → SV → Option Bytes
 def decS (t : ST) (data : Bytes) : Except Err (SV × Bytes) :=
   if data.length < t.size then .error .valueError else
   match t with
-  | .uint k => .ok (.num (fromLE (data.take k)), data.drop k)
+  | .uint k => .ok (.num (Int.ofNat (fromLE (data.take k))), data.drop k)
   | .sint k =>
-    let u : Int := fromLE (data.take k)
-    .ok (.num (if u < (256 : Int) ^ k / 2 then u else u - (256 : Int) ^ k), data.drop k)
+    let u : Int := Int.ofNat (fromLE (data.take k))
+    .ok (.num (if u < pow256 k / 2 then u else u - pow256 k), data.drop k)
   | .blob m => .ok (.raw (data.take m), data.drop m)
 
 /-! ## records (a struct of scalars, or a single scalar) -/
@@ -120,19 +122,31 @@ def decRowsAll (ts : List ST) : Nat → Bytes → Except Err (List (List SV))
 
 def u16s (l : List Nat) : List (List SV) := l.map fun n => [SV.num (Int.ofNat n)]
 
-def encW : WT → Val → Option Bytes
-  | .sc t, .sc v => encS t v
-  | .lvBytes h, .bytes b => if b.length + 1 < 256 ^ h then some (toLE h b.length ++ b) else none
-  | .lvList h ts, .rows rs =>
-    if rs.length < 256 ^ h then (encRows ts rs).map (toLE h rs.length ++ ·) else none
-  | .greedy ts, .rows rs => encRows ts rs
-  | .simpleDesc, .sd ep pr dt dv ins outs =>
-    match encRec [.uint 1, .uint 2, .uint 2, .uint 1, .uint 1, .uint 1]
-        [.num (Int.ofNat ep), .num (Int.ofNat pr), .num (Int.ofNat dt), .num (Int.ofNat dv), .num (Int.ofNat ins.length), .num (Int.ofNat outs.length)],
-      encRows [.uint 2] (u16s (ins ++ outs)) with
-    | some a, some b => some (a ++ b)
-    | _, _ => none
+def encSD (ep pr dt dv : Nat) (ins outs : List Nat) : Option Bytes :=
+  match encRec [.uint 1, .uint 2, .uint 2, .uint 1, .uint 1, .uint 1]
+      [.num (Int.ofNat ep), .num (Int.ofNat pr), .num (Int.ofNat dt), .num (Int.ofNat dv),
+        .num (Int.ofNat ins.length), .num (Int.ofNat outs.length)],
+    encRows [.uint 2] (u16s (ins ++ outs)) with
+  | some a, some b => some (a ++ b)
   | _, _ => none
+
+def encW (w : WT) (v : Val) : Option Bytes :=
+  match w with
+  | .sc t => match v with
+    | .sc x => encS t x
+    | _ => none
+  | .lvBytes h => match v with
+    | .bytes b => if b.length + 1 < 256 ^ h then some (toLE h b.length ++ b) else none
+    | _ => none
+  | .lvList h ts => match v with
+    | .rows rs => if rs.length < 256 ^ h then (encRows ts rs).map (toLE h rs.length ++ ·) else none
+    | _ => none
+  | .greedy ts => match v with
+    | .rows rs => encRows ts rs
+    | _ => none
+  | .simpleDesc => match v with
+    | .sd ep pr dt dv ins outs => encSD ep pr dt dv ins outs
+    | _ => none
 
 def natOf : SV → Nat
   | .num n => n.toNat
@@ -182,6 +196,7 @@ structure Field where
   name : String
   wt : WT
   optional : Bool := false
+  param : Nat := 0               -- index of the Python parameter (flattened zigpy structs share one index)
   enumVals : List Int := []      -- numeric values of the members when the Python type is an enum / bitmap
   deriving Repr, DecidableEq, Inhabited
 
@@ -189,6 +204,7 @@ structure CmdDesc where
   name : String
   header : Nat                   -- effective `cls.header` (version | type << 8 | id << 16)
   blocking : Bool := false
+  statusIdx : Option Nat := none -- wire-field index of the parameter named "StatusCode"
   fields : List Field
   deriving Repr, DecidableEq, Inhabited
 
